@@ -66,7 +66,7 @@ class World:
         hops = len(c['path'].split(',')) if c['path'] else 0
         r = rng.random()
         if r < 0.35 and hops < 4 and not (getattr(self, 'no_reextend', False) and c['status'] == 'BUILT'):
-            new = rng.choice([x for x in RELAYS if x not in c['path'].split(',')])
+            new = rng.choice([x for x in RELAYS if x not in c['path'].split(',')] if rng.random() < 0.93 else c['path'].split(',') if c['path'] else RELAYS)
             c['path'] = (c['path'] + ',' if c['path'] else '') + new
             c['status'] = 'EXTENDED'
             return self.circ_line(cid, 'EXTENDED')
@@ -294,6 +294,10 @@ def gen_case(rng, *, n_ops, listeners=True, waits=True, attach=False, weird=Fals
                     see_strm(l)
                     ops.append(['strm', l, [], None])
                     continue
+        if rng.random() < 0.04:
+            # a replacement consensus arrives: no transition of any circuit or stream
+            ops.append(['ncons', rng.randrange(8)])
+            continue
         if rng.random() < 0.07:
             # Tor gives an address a name (or takes it away, or moves the name to another address): later streams to that
             # address are listed under the name
@@ -713,6 +717,8 @@ class Spec:
             so = self.asked.pop(op[1], None)
             if so is not None:
                 self.decide(so, op[2])
+        elif k == 'ncons':
+            pass
         elif k == 'amap':
             name, addr = op[1], op[2]
             m = self.names.get(name)
